@@ -309,8 +309,10 @@ class ExprMixin:
     h = st.heap
     ra, rb = ref(a), ref(b)
     i = z3.Int('lc_i')
-    arr = z3.Lambda([i], z3.If(i < h.len(ra), h.elt(ra, i), h.elt(rb, i - h.len(ra))))
-    st2, r = self.new_list_from(st, h.len(ra) + h.len(rb), arr)
+    arr = fresh('cat', ValArr)
+    fact = z3.ForAll([i], arr[i] == z3.If(i < h.len(ra), h.elt(ra, i), h.elt(rb, i - h.len(ra))),
+                     patterns=[arr[i]])
+    st2, r = self.new_list_from(st.assume(fact), h.len(ra) + h.len(rb), arr)
     return Res(st2, VRef(r))
 
   def ex_Compare(self, e, st):
@@ -752,16 +754,48 @@ class ExprMixin:
           h = st3.heap
           i = z3.Int('dl_i')
           old = h.eltarr(r)
-          new = z3.Lambda([i], z3.If(i < j, old[i], old[i + 1]))
+          new = fresh('del', ValArr)
+          fact = z3.ForAll([i], new[i] == z3.If(i < j, old[i], old[i + 1]), patterns=[new[i]])
           h = h.set('lelt', z3.Store(h.get('lelt'), r, new))
           h = h.set('llen', z3.Store(h.get('llen'), r, n - 1))
-          outs.append(Outcome('normal', st3.with_heap(h)))
+          outs.append(Outcome('normal', st3.with_heap(h).assume(fact)))
         else:
           outs.append(self.raise_(st3, 'IndexError', origin=f'del[]@{node.lineno}'))
     return outs
 
   def list_getslice(self, obj, key, st, node):
-    self.unsupp('list slicing', node)
+    """lst[a:b:c] -> fresh list (assumed: slice.indices + range length, cross-checked)."""
+    from pyvc.calls import slice_indices, range_len, range_len_axioms, trusted
+    trusted('list slicing: new list of the elements at range(*slice.indices(len))')
+    r, k = ref(obj), ref(key)
+    h = st.heap
+    lo, hi, stp = h.fld(k, 'start'), h.fld(k, 'stop'), h.fld(k, 'step')
+    out = []
+    wellt = z3.And(*[z3.Or(is_VNone(x), is_VInt(x)) for x in (lo, hi, stp)])
+    for s3, ok in self.fork(st, wellt):
+      if not ok:
+        out.append(self.exc_res(s3, 'TypeError', origin=f'slice@{node.lineno}'))
+        continue
+      for s4, zero in self.fork(s3, z3.And(is_VInt(stp), ival(stp) == 0)):
+        if zero:
+          out.append(self.exc_res(s4, 'ValueError', origin=f'slice step 0@{node.lineno}'))
+          continue
+        n = s4.heap.len(r)
+        a, b, c = slice_indices(lo, hi, stp, n)
+        cs = z3.simplify(c)
+        if z3.is_int_value(cs) and cs.as_long() == 1:
+          ln = z3.If(b > a, b - a, z3.IntVal(0))
+          s5 = s4
+        else:
+          ln = range_len(a, b, c)
+          s5 = s4.assume(range_len_axioms(a, b, c))
+        i = z3.Int('gs_i')
+        old = s5.heap.eltarr(r)
+        arr = fresh('slc', ValArr)
+        fact = z3.ForAll([i], arr[i] == old[a + i * c], patterns=[arr[i]])
+        s6, nr = self.new_list_from(s5.assume(fact), ln, arr, 'list')
+        out.append(Res(s6, VRef(nr)))
+    return out
 
   def list_setslice(self, obj, key, v, st, node):
     self.unsupp('list slice assignment', node)
@@ -834,6 +868,7 @@ class ExprMixin:
       length, arr = h.len(r), h.eltarr(r)
       v = SeqView(length, lambda i: arr[i], src=r)
       v.src_arrays = ('llen', 'lelt')
+      v.live = True
       return v
     if not self.feasible_full(st, z3.Not(z3.And(is_VRef(it), z3.Or([cls_in(c, n) for n in DICTLIKE])))):
       return self.dict_keys_view(r, st)
